@@ -6,6 +6,7 @@ CONSTANTS
   FailKinds = {"kl"}
   NVH = 1
   MinReg = 0
+  Renames = FALSE
   Collect = TRUE
 INVARIANT Mark
 POSTCONDITION Accepted
